@@ -694,8 +694,8 @@ def ctrsbox_geometry(xbase, c, g, projections, Delta, d_max_iters=100, d_tol=1e-
     #   max_s  abs(c + g' * s)
     #   s.t.   xbase + s is is feasible w.r.t constraint set C
     #          ||s|| <= Delta
-    smin = ctrsbox_linear(xbase, g, projections, Delta, d_max_iters=100, d_tol=1e-10, use_fortran=use_fortran)  # minimise g' * s
-    smax = ctrsbox_linear(xbase, -g, projections, Delta, d_max_iters=100, d_tol=1e-10, use_fortran=use_fortran)  # maximise g' * s
+    smin = ctrsbox_linear(xbase, g, projections, Delta, d_max_iters=d_max_iters, d_tol=d_tol, use_fortran=use_fortran)  # minimise g' * s
+    smax = ctrsbox_linear(xbase, -g, projections, Delta, d_max_iters=d_max_iters, d_tol=d_tol, use_fortran=use_fortran)  # maximise g' * s
     if abs(c + np.dot(g, smin)) >= abs(c + np.dot(g, smax)):  # choose the one with largest absolute value
         return smin
     else:
